@@ -208,6 +208,46 @@ func runBatchExtra(raw json.RawMessage, seed int64) (res Result) {
 			}
 		}
 	}
+	// batches of 32..130 entries whose only invalid entries are one cancelling pair at the very END (last two, last and one before
+	// the last sixteenth, ...), at the very beginning, and straddling n - n/16: positions where coefficients taken from a shared or
+	// short buffer would coincide
+	{
+		var ks []crypto.PublicKey
+		var ps []ref.G1
+		for k := 0; k < 4; k++ {
+			sc := w.Scalar(fmt.Sprintf("big%d", k))
+			ks = append(ks, w.SK(sc).PublicKey())
+			ps = append(ps, H.Mul(sc))
+		}
+		d := w.D()
+		for _, n := range []int{32, 33, 47, 48, 64, 65, 100, 128, 130} {
+			for _, pair := range [][2]int{{n - 2, n - 1}, {0, 1}, {n - 3, n - 1}, {n - n/16 - 1, n - n/16}, {n - n/16, n - 1}, {n / 2, n - 1}} {
+				i, j := pair[0], pair[1]
+				if i < 0 || i >= j || j >= n {
+					continue
+				}
+				pk := make([]crypto.PublicKey, n)
+				sg := make([]crypto.Signature, n)
+				for x := 0; x < n; x++ {
+					pk[x], sg[x] = ks[x%4], ps[x%4].Compress()
+				}
+				sg[i], sg[j] = ps[i%4].Add(d).Compress(), ps[j%4].Add(d.Neg()).Compress()
+				got, err := crypto.BatchVerifyBLSSignaturesOneMessage(pk, sg, m.Data, h)
+				res.Evals++
+				if err != nil || len(got) != n {
+					res.Violations = append(res.Violations, Violation{"C03", "AgreesWithVerify", fmt.Sprintf("batch of %d: (%d results, %v)", n, len(got), err)})
+					continue
+				}
+				for x := range got {
+					if got[x] != (x != i && x != j) {
+						res.Violations = append(res.Violations, Violation{"C03", "AgreesWithVerify",
+							fmt.Sprintf("batch of %d whose only invalid entries are s_%d+d and s_%d-d: index %d is reported %v [seed %d]", n, i, j, x, got[x], seed)})
+						break
+					}
+				}
+			}
+		}
+	}
 	// batches whose ONLY invalid entries carry errors that are a finite difference of order k along an arithmetic progression of
 	// indices (+D, -2D, +D; +D, -3D, +3D, -D; ...): they cancel against every coefficient sequence that is a polynomial of degree < k
 	// in the index (one random value plus the index, a random affine function of the index, ...), whatever the random values are.
